@@ -11,6 +11,8 @@ sys.path.insert(0, os.path.join(ROOT, 'tools'))
 sys.path.insert(0, '/repo')
 sys.dont_write_bytecode = True
 
+SUBCHECKS = {'C01': ['C01p']}
+
 BASELINE = ('cd /repo && /venv/bin/python -m pytest -ra -q -p no:cacheprovider --timeout=900 '
             '--continue-on-collection-errors')
 
@@ -33,8 +35,8 @@ def main():
         m = mod.MANIFEST
         checks.append(dict(
             property_id=pid,
-            quick_cmd='./check %s --tier quick' % pid,
-            thorough_cmd='./check %s --tier thorough' % pid,
+            quick_cmd='./check %s --tier quick%s' % (pid, ''.join(' --with ' + x for x in getattr(mod, 'SUBCHECKS', SUBCHECKS.get(pid, [])))),
+            thorough_cmd='./check %s --tier thorough%s' % (pid, ''.join(' --with ' + x for x in getattr(mod, 'SUBCHECKS', SUBCHECKS.get(pid, [])))),
             evidence_file='/verif/evidence/%s.json' % pid,
             replay_cmd_template='./check %s --replay {path}' % pid,
             engine='coq-proof+correspondence',
